@@ -5,4 +5,5 @@ TG == 1..17
 NoToks == {}
 NoSamples == {}
 NoScheds == {}
+NoAmmos == {}
 =============================================================================
